@@ -31,11 +31,12 @@ const (
 )
 
 type verifOp struct {
-	Op      string      `json:"op"`     // add | tick | advance | flush | wait | par | racetick | waitrace | holdexec
-	Via     string      `json:"via"`    // holdexec: whose execute callback is held: tick | flush | wait
-	During  []verifOp   `json:"during"` // holdexec: Adds issued while it is held
-	Waiter  bool        `json:"waiter"` // holdexec: a concurrent Wait is called while it is held
-	InHold  []verifOp   `json:"inhold"` // holdexec (via flush | wait): ticks / clock advances while it is held
+	Op      string      `json:"op"`       // add | tick | advance | flush | wait | par | racetick | waitrace | holdexec
+	Via     string      `json:"via"`      // holdexec: whose execute callback is held: tick | flush | wait
+	During  []verifOp   `json:"during"`   // holdexec: Adds issued while it is held
+	Waiter  bool        `json:"waiter"`   // holdexec: a concurrent Wait is called while it is held
+	SleepMs int         `json:"sleep_ms"` // holdexec: the held execute goes on for this long (real AND virtual time) after the waiter is in place
+	InHold  []verifOp   `json:"inhold"`   // holdexec (via flush | wait): ticks / clock advances while it is held
 	ID      int         `json:"id"`
 	Size    int         `json:"size"`
 	N       int         `json:"n"`
@@ -651,6 +652,11 @@ func (r *verifRig) run(i int, op verifOp) {
 					time.Sleep(200 * time.Microsecond)
 				}
 			}
+		}
+		if held && op.SleepMs > 0 {
+			// a long execution: many flush intervals pass, on the virtual clock and on the wall clock
+			timex.VerifAdvance(time.Duration(op.SleepMs) * time.Millisecond)
+			time.Sleep(time.Duration(op.SleepMs) * time.Millisecond)
 		}
 		if held {
 			close(gate)
